@@ -59,7 +59,31 @@ def r2_inplace(rep, facts):
     # push / insert give the new element the default decoration (" " before it when the array already has elements, nothing when it is the
     # first; no suffix); the *_formatted forms store the value as given.  Decided by evaluating each method on an empty and a non-empty array
     # with `decorate` / `decor_mut` / `fmt` and the Vec operations recorded (whatever helper or closure the decoration goes through).
-    from .den import RecInterp, Unanalysable as UN
+    from .den import RecInterp, Unanalysable as UN, EvalPanic
+    SOME = 'core::option::Option::Some'
+
+    def sample():
+        return ('ctor', 'toml_edit::value::Value::Integer', (('struct', 'toml_edit::repr::Formatted', {'value': 7, 'repr': ('opaque',), 'decor': (
+            'struct', 'toml_edit::repr::Decor', {'prefix': ('ctor', SOME, ('<old prefix>',)), 'suffix': ('ctor', SOME, ('<old suffix>',))})}),))
+
+    def decor_of(x, depth=0):
+        """(prefix, suffix) of the first modelled Decor inside a stored element"""
+        if depth > 8:
+            return None
+        if isinstance(x, tuple) and len(x) == 3 and x[0] == 'struct' and isinstance(x[2], dict):
+            if 'prefix' in x[2] and 'suffix' in x[2]:
+                un = lambda o: o[2][0] if isinstance(o, tuple) and o[:2] == ('ctor', SOME) else None
+                return un(x[2]['prefix']), un(x[2]['suffix'])
+            for v in x[2].values():
+                r = decor_of(v, depth + 1)
+                if r is not None:
+                    return r
+        elif isinstance(x, tuple):
+            for v in x:
+                r = decor_of(v, depth + 1)
+                if r is not None:
+                    return r
+        return None
     for d, want in (('toml_edit::array::Array::push', True), ('toml_edit::array::Array::insert', True),
                     ('toml_edit::array::Array::push_formatted', False), ('toml_edit::array::Array::insert_formatted', False),
                     ('toml_edit::array::Array::replace_formatted', False)):
@@ -68,28 +92,33 @@ def r2_inplace(rep, facts):
         got = {}
         try:
             for n_el in (0, 2):
-                it = RecInterp(Evaluator(facts), {'decorate', 'decor_mut', 'fmt', 'push', 'insert', 'set_prefix', 'set_suffix', 'replace', 'get_mut', 'remove'})
+                it = RecInterp(Evaluator(facts), {'push', 'insert', 'replace', 'get_mut', 'remove'})
                 env = {pn[0]: ('struct', 'Array', {'values': tuple(('item',) for _ in range(n_el)), 'trailing_comma': False}), '@assign': {}, '@calls': []}
                 for extra in pn[1:]:
-                    env[extra] = ('value',) if extra == pn[-1] else 0
-                from .den import EvalPanic
+                    env[extra] = sample() if extra == pn[-1] else 0
                 try:
                     it.val(b['body'], env)
                 except EvalPanic:
-                    pass            # e.g. replace_formatted(0, ..) on an empty array: a documented panic, nothing was decorated before it
+                    pass            # e.g. replace_formatted(0, ..) on an empty array: a documented panic, nothing was stored before it
                 except Exception as ex:
                     if not hasattr(ex, 'v'):
                         raise
-                got[n_el] = [(nm, tuple(a for a in args if isinstance(a, str))) for nm, args in it.calls if nm in ('decorate', 'decor_mut', 'fmt', 'set_prefix', 'set_suffix')]
+                stored = [decor_of(a[-1]) for nm, a in it.calls if nm in ('push', 'insert') and a] + \
+                         [decor_of(v) for nm, a in it.calls if nm == 'replace' and a for v in a[-1:]]
+                stored = [x for x in stored if x is not None]
+                got[n_el] = stored[0] if len(stored) == 1 else (None if not stored else tuple(stored))
         except UN as e:
             rep.incomplete(R, d + ('|decorates' if want else '|verbatim'), f'cannot evaluate: {e}', facts.loc(b))
             continue
         if want:
-            ok = got == {0: [('decorate', ('', ''))], 2: [('decorate', (' ', ''))]}
-            rep.check(R, d + '|decorates', ok, 'first element: decorate("", ""); later elements: decorate(" ", "")',
-                      f'`{d}` decorates the new element with {got[0]} in an empty array and {got[2]} in a non-empty one, expected decorate("", "") / decorate(" ", "")', facts.loc(b))
+            ok = got == {0: ('', ''), 2: (' ', '')}
+            rep.check(R, d + '|decorates', ok, 'stored with decor ("", "") as first element, (" ", "") after others',
+                      f'`{d}` stores the new element with decor (prefix, suffix) = {got[0]} in an empty array and {got[2]} in a non-empty one, expected ("", "") / (" ", ""): whatever '
+                      f'decoration the value brought along (a trailing comment in its suffix) must be replaced, or it swallows the `,` / `]` written after it', facts.loc(b))
         else:
-            rep.check(R, d + '|verbatim', not got[0] and not got[2], 'stores the value as given', f'`{d}` changes the decor of an already formatted value ({got})', facts.loc(b))
+            keep = ('<old prefix>', '<old suffix>')
+            ok = all(v in (None, keep) for v in got.values())
+            rep.check(R, d + '|verbatim', ok, 'stores the value as given', f'`{d}` changes the decor of an already formatted value ({got})', facts.loc(b))
 
 def r3_conversions(rep, facts):
     R = rep.rule('C08/R3', 'conversions between inline and standard forms move the item storage wholesale and convert every element', floor=6)
